@@ -445,7 +445,8 @@ func (fr *frame) execCall(call *ssa.Call, st *pathState) []aval {
 	}
 	name := calleeName(com)
 	if c.argAbsent != "" && strings.HasSuffix(name, "ast.ArgumentList).ForName") && len(com.Args) == 2 {
-		if k, ok := com.Args[1].(*ssa.Const); ok && k.Value != nil && k.Value.Kind() == constant.String && constant.StringVal(k.Value) == c.argAbsent {
+		// (the name may be a constant handed down to a helper: `ir.boolArgument(f, "includeDeprecated")`)
+		if k := fr.eval(com.Args[1], st); k.k == avConst && k.c.Kind() == constant.String && constant.StringVal(k.c) == c.argAbsent {
 			return []aval{{k: avNil}}
 		}
 	}
